@@ -143,3 +143,17 @@ func TestDevSolo(t *testing.T) {
 	uptime, _ := os.ReadFile("/proc/loadavg")
 	fmt.Println(string(uptime))
 }
+
+func TestDevLen(t *testing.T) {
+	hist := map[int]int{}
+	ops := map[string]int{}
+	rapid.Check(t, func(rt *rapid.T) {
+		h := Gen(rt, BiasC12, func(string) bool { return true })
+		hist[len(h.Steps)]++
+		for _, s := range h.Steps {
+			ops[s.Op]++
+		}
+	})
+	fmt.Println(hist)
+	fmt.Println(ops)
+}
